@@ -552,7 +552,7 @@ func (w *Worker) runPath(j job) {
 		}
 		runMain(w.interp, c.Fn, args)
 	}()
-	if status == stViolation && !strings.HasPrefix(reason, "panic: ") {
+	if status == stViolation && !strings.HasPrefix(reason, "panic: ") && !strings.HasPrefix(reason, "assertion") {
 		// pathEnd violation raised by the engine itself (huge allocation, deadlock)
 		w.reportPanic(p, reason)
 	}
